@@ -30,8 +30,10 @@ import (
 )
 
 const (
-	swL2  = "noTwoDescriptorsOnOneInode" // L2: MemFs descriptor = inode number
-	swL3  = "noSharedStagingFile"        // L3: DirFs.AtomicCreate staging file shared by name
+	swL2  = "noTwoDescriptorsOnOneInode"       // L2: MemFs descriptor = inode number
+	swL3  = "noSharedStagingFile"              // L3: DirFs.AtomicCreate staging file shared by name
+	swK1  = "noLinkSourceBeingReplaced"        // K1: DirFs.Link vs concurrent AtomicCreate of its source (linkat ENOENT race)
+	swK2  = "noDirFsReadDuringMultiPageAppend" // K2: DirFs.ReadAt concurrent with an Append larger than a page
 	tLin  = "TestLinearizable"
 	tRace = "TestRace"
 )
@@ -394,6 +396,8 @@ func diagnose(all []fsprog.Event) string {
 func genProg(t *rapid.T, impl string) fsprog.Program {
 	l2 := impl == "mem" && ev.SwitchOn(swL2)
 	l3 := impl == "dir" && ev.SwitchOn(swL3)
+	k1 := impl == "dir" && ev.SwitchOn(swK1)
+	k2 := impl == "dir" && ev.SwitchOn(swK2)
 	p := fsprog.Program{Impl: impl}
 	dirs := []string{"d", "e"}[:rapid.IntRange(1, 2).Draw(t, "ndirs")]
 	names := []string{"a", "b", "c"}[:rapid.IntRange(2, 3).Draw(t, "nnames")]
@@ -471,6 +475,13 @@ func genProg(t *rapid.T, impl string) fsprog.Program {
 			hot = &q
 		}
 	}
+	// K1 restriction: a path is either replaceable by AtomicCreate or usable as a Link source
+	replaceable := map[pth]bool{}
+	if k1 {
+		for _, q := range paths {
+			replaceable[q] = rapid.Bool().Draw(t, "replaceable")
+		}
+	}
 	for c := 0; c < nclients; c++ {
 		se := map[pth]bool{} // surely exists for this client at this point
 		for _, q := range paths {
@@ -518,6 +529,10 @@ func genProg(t *rapid.T, impl string) fsprog.Program {
 					continue
 				}
 				s, n := data("adata")
+				if k2 && n > 12 {
+					ev.Prune(swK2)
+					n = 12
+				}
 				ops = append(ops, models.FsOp{Kind: models.FsAppend, Fd: rapid.SampledFrom(wslots).Draw(t, "wslot"), Seed: s, N: n})
 			case models.FsClose:
 				all := append(append([]int{}, wslots...), rslots...)
@@ -581,12 +596,20 @@ func genProg(t *rapid.T, impl string) fsprog.Program {
 					ev.Prune(swL2)
 					continue
 				}
+				if k1 && replaceable[src] {
+					ev.Prune(swK1)
+					continue
+				}
 				ops = append(ops, models.FsOp{Kind: models.FsLink, Dir: src.dir, Name: src.name, Dir2: dst.dir, Name2: dst.name})
 				ensure(dst)
 			case models.FsAtomic:
 				q := anyPath("apath")
 				if l3 && atomicBy[q.name] != c {
 					ev.Prune(swL3)
+					continue
+				}
+				if k1 && !replaceable[q] {
+					ev.Prune(swK1)
 					continue
 				}
 				s, n := data("xdata")
